@@ -602,6 +602,10 @@ func checkC20(w *World, r *Report) {
 		r.Undecided(nil, "schema has no definitions.mechanismDefinitions.properties")
 		return
 	}
+	c20TypeNamesAsGiven(w, r)
+	c20OneYAML(w, r)
+	// "defaults fill what neither defines": the defaults are storage the loader decodes into
+	c09DefaultsNoSharing(w, r)
 	mts, problems := c20MechanismTypes(w)
 	for _, p := range problems {
 		r.Undecided(nil, p)
@@ -1215,4 +1219,94 @@ func isStructDecoder(f *ssa.Function) bool {
 		}
 	}
 	return false
+}
+
+// ---- C20.9 / C20.10 ----------------------------------------------------------------------------------
+
+// c20TypeNamesAsGiven (C20.9): the schema the file is validated against names the mechanism types
+// by exact constants, and nothing validates the environment. A loader that normalises the type
+// name (case folding, trimming) before the registry lookup accepts from the environment what the
+// file may not contain. Decided at the calls that hand a prototype definition to a type factory:
+// the type argument is the decoded field, no string normaliser is applied on the way.
+func c20TypeNamesAsGiven(w *World, r *Report) {
+	ri := r.Rule("C20.9", 1, "mechanism type names reach the type registries as decoded: no case folding or trimming between the configuration and the lookup")
+	n := 0
+	for _, fn := range w.Funcs {
+		if w.isMockFn(fn) || fn.Blocks == nil || fnPkgPath(fn) != modPath+"/internal/rules/mechanisms" {
+			continue
+		}
+		for _, c := range callsIn(fn) {
+			cc := c.Common()
+			if cc.IsInvoke() || cc.StaticCallee() != nil {
+				continue
+			}
+			if _, isParam := cc.Value.(*ssa.Parameter); !isParam || len(cc.Args) < 4 {
+				continue
+			}
+			if !isString(cc.Args[1].Type()) || !isString(cc.Args[2].Type()) {
+				continue
+			}
+			n++
+			r.Analysed(w.FnName(fn))
+			bad := ""
+			for _, a := range cc.Args[1:3] {
+				dependsOn(w, a, func(x ssa.Value) bool {
+					if xc, ok := x.(*ssa.Call); ok {
+						switch nm := callName(xc.Common()); {
+						case strings.HasPrefix(nm, "strings.To"), strings.HasPrefix(nm, "strings.Trim"), nm == "strings.Title", strings.HasPrefix(nm, "strings.Replace"), strings.HasPrefix(nm, "unicode."), strings.Contains(nm, "cases."):
+							bad = nm
+						}
+					}
+					return false
+				})
+			}
+			r.Ob(ri, w.FnName(fn)+"|type-name-as-decoded", c.Pos(), bad == "", "the mechanism id / type handed to the type factory went through "+bad+": a spelling the schema rejects in a file is accepted from the environment (which no schema validates)")
+		}
+	}
+	if n == 0 {
+		r.Undecided(ri, "no call of a mechanism type factory found in the mechanism repository")
+	}
+}
+
+// c20OneYAML (C20.10): a value given through the environment is typed by a YAML parser ("true",
+// "10", "1s" ...), the file is parsed by a YAML parser: they must be the same implementation, or
+// the same text means different values (YAML 1.1 reads yes/no/on/off as booleans, YAML 1.2 does not).
+func c20OneYAML(w *World, r *Report) {
+	ri := r.Rule("C20.10", 1, "the configuration file and the values of environment variables are interpreted by the same YAML implementation")
+	p := w.P("internal/config/parser")
+	if p == nil {
+		r.Undecided(ri, "configuration parser package not found")
+		return
+	}
+	impls := map[string]bool{}
+	isYAMLImpl := func(path string) bool {
+		return strings.HasPrefix(path, "gopkg.in/yaml.") || strings.HasPrefix(path, "sigs.k8s.io/yaml") || strings.HasPrefix(path, "github.com/goccy/go-yaml") || strings.HasPrefix(path, "go.yaml.in/")
+	}
+	direct := 0
+	for path, ip := range p.Imports {
+		if isYAMLImpl(path) {
+			impls[path] = true
+			direct++
+			continue
+		}
+		if strings.Contains(path, "yaml") {
+			// a wrapper (koanf's parser): the implementation it imports
+			direct++
+			for sub := range ip.Imports {
+				if isYAMLImpl(sub) {
+					impls[sub] = true
+				}
+			}
+		}
+	}
+	if direct == 0 {
+		r.Undecided(ri, "the configuration parser imports no YAML package")
+		return
+	}
+	var l []string
+	for k := range impls {
+		l = append(l, k)
+	}
+	sort.Strings(l)
+	r.Ob(ri, "config-parser|one-yaml-implementation", token.NoPos, len(l) == 1, "the configuration parser uses several YAML implementations ("+strings.Join(l, ", ")+"): the same text is typed differently in the file and in an environment variable")
 }
